@@ -127,6 +127,17 @@ func (fv *FV) execStmt(st *State, s ast.Stmt, label string) *State {
 	case *ast.RangeStmt:
 		return fv.execRange(st, x, label)
 	case *ast.ReturnStmt:
+		if n := len(fv.closureRet); n > 0 {
+			// a return of the function literal being run as the body of a yield loop
+			ctx := fv.closureRet[n-1]
+			var vals []Term
+			for _, r := range x.Results {
+				vals = append(vals, fv.evalExpr(st, r))
+			}
+			ctx.ends = append(ctx.ends, st)
+			ctx.vals = append(ctx.vals, vals)
+			return nil
+		}
 		fv.execReturn(st, x)
 		return nil
 	case *ast.BranchStmt:
@@ -827,6 +838,17 @@ func (fv *FV) numberLoops(body *ast.BlockStmt) {
 				visit(x)
 				stack = stack[:len(stack)-1]
 				return false
+			case *ast.CallExpr:
+				if _, yi, lit := fv.yieldLitArg(x); yi >= 0 {
+					// a function literal received by a yield parameter is verified as a loop body: it takes the next
+					// loop ordinal, in source order
+					n++
+					fv.loopOrd[fv.litStmt(lit)] = n
+					fv.loopNest[n] = append([]int(nil), stack...)
+					stack = append(stack, n)
+					visit(lit.Body)
+					stack = stack[:len(stack)-1]
+				}
 			case *ast.ExprStmt:
 				note(x)
 			case *ast.AssignStmt:
@@ -1000,6 +1022,16 @@ func (fv *FV) loopHead(st *State, ls *LoopSpec, ord int, pos, scopePos token.Pos
 		if cur, ok := head.ghost[name]; ok {
 			head.ghost[name] = Term{S: fv.fresh(name, cur.Sort), Sort: cur.Sort, T: cur.T}
 		}
+	}
+	if fv.pendingIt != "" {
+		// a counted loop (yield loop): the iteration counter is arbitrary at the head
+		it := Term{S: fv.fresh(fv.pendingIt, sInt), Sort: sInt, T: types.Typ[types.Int]}
+		head.ghost[fv.pendingIt] = it
+		fv.pendingItTerm = it
+		if fv.pendingItBound != "" {
+			fv.assume(head, and(app("<=", "0", it.S), app("<=", it.S, fv.pendingItBound)))
+		}
+		fv.pendingIt = ""
 	}
 	fv.assumeInvariants(head, ls, scopePos)
 	if ls != nil && len(ls.Invariants) > 0 {
